@@ -10,7 +10,7 @@ use matchers::{Follow, WalkEntry};
 use std::cell::RefCell;
 use std::error::Error;
 use std::io::{stderr, stdout, Write};
-use std::path::PathBuf;
+use std::path::{Path, PathBuf};
 use std::rc::Rc;
 use std::time::SystemTime;
 use walkdir::WalkDir;
@@ -153,6 +153,18 @@ fn parse_args(args: &[&str]) -> Result<ParsedInfo, Box<dyn Error>> {
     })
 }
 
+/// The device a path lies on (through symbolic links), as the walker compares it for -xdev.
+#[cfg(unix)]
+fn device_of(path: &Path) -> Option<u64> {
+    use std::os::unix::fs::MetadataExt;
+    path.metadata().ok().map(|m| m.dev())
+}
+
+#[cfg(not(unix))]
+fn device_of(_path: &Path) -> Option<u64> {
+    None
+}
+
 fn process_dir(
     dir: &str,
     config: &Config,
@@ -172,6 +184,13 @@ fn process_dir(
     }
 
     let mut ret = 0;
+    // With -xdev the walker yields a directory on another file system than the starting
+    // point without descending into it; -prune on such a directory has nothing to skip.
+    let root_device = if config.same_file_system {
+        device_of(Path::new(dir))
+    } else {
+        None
+    };
 
     // Slightly yucky loop handling here :-(. See docs for
     // WalkDirIterator::skip_current_dir for explanation.
@@ -215,7 +234,14 @@ fn process_dir(
                 // Under -depth a directory is visited after its contents, so
                 // there is nothing left to skip (and skip_current_dir() would
                 // drop the remaining entries of the parent directory instead).
-                if matcher_io.should_skip_current_dir() && !config.depth_first {
+                // Nor was a directory on another file system entered under -xdev:
+                // skip_current_dir() would drop the rest of its parent's entries.
+                if matcher_io.should_skip_current_dir()
+                    && !config.depth_first
+                    && (!config.same_file_system
+                        || entry.depth() == 0
+                        || device_of(entry.path()) == root_device)
+                {
                     it.skip_current_dir();
                 }
             }
